@@ -441,7 +441,63 @@ def bls_cases(build):
     bad_gt = bytearray((1).to_bytes(48, 'little') + PPm.to_bytes(48, 'little') + bytes(48 * 10)); cases.append((f'bls:deser,gt,{bytes(bad_gt).hex()}', 'same err', 'GT: 1 with a zero coefficient spelled as p'))
     return cases + conversion_cases(build)[-120:]
 
+def r1cs_honest_cases(build):
+    if build != 'ark': return []
+    cases = []
+    for b in byte_strings()[:60]:
+        v = int.from_bytes(b, 'little')
+        if v >= Q: continue
+        d = decode_expect(b)
+        if d.startswith('ok'): cases.append((f'r1cs:decode,{b.hex()}', f'sat=true native=ok:{d[3:]} value={d[3:]}', f'in-circuit decode of the valid encoding {v}'))
+        else: cases.append((f'r1cs:decode,{b.hex()}', 'sat=false native=err value=-', f'in-circuit decode of the invalid encoding {v}'))
+    for dv_ in (0, 1, 4, 2, 3, 5, Q - 1, spec.ZETA, 7, 9):
+        cases.append((f'r1cs:isqrt,{QH(dv_)}', 'sat=true flag=' + str(replay.ref_sqrt_ratio(1, dv_)[0]).lower() + ' contract=true flag_matches_native=true', f'isqrt gadget on {dv_}'))
+    for k in (0, 1, 2, 3, 5, 22, R - 1):
+        for rep in '0123':
+            h = enc_of_mul(k); cases.append((f'r1cs:encode,{le(k)},{rep}', f'sat=true value={h} native={h}', f'compress gadget on [{k}]B representation {rep}'))
+    for r0 in (0, 1, Q - 1, 2, 3, 5, 11, spec.ZETA):
+        h = ref_enc_hex(ref_elligator(r0 % Q)); cases.append((f'r1cs:elligator,{QH(r0)}', f'sat=true value={h} native={h}', f'elligator gadget on {r0}'))
+    for op in ('add_vv', 'add_vr', 'sub_vv', 'sub_vr', 'addassign_v', 'addassign_r', 'subassign_v', 'subassign_r', 'double', 'negate'):
+        for pre in '01':
+            for a, b in ((3, 5), (5, 5), (7, 0)): cases.append((f'r1cs:ops,{op},{le(a)},{le(b)},{pre}', 'sat=true encoding_ok=true value_ok=true', f'ElementVar {op} on [{a}]B, [{b}]B, encoding forced before: {pre}'))
+    import itertools
+    for n in (1, 2, 3, 4):
+        for seq in itertools.product('EN', repeat=n):
+            for init in '01': cases.append((f'r1cs:lazy,{"".join(seq)},{init},{le(7)}', 'sat=true values_ok=true stable=true', f'lazy forcing sequence {"".join(seq)} from init {init}'))
+    for k in (1, 5, 5 * 1000003):
+        for rep in '0123': cases.append((f'r1cs:iszero,{le(k)},{rep}', 'sat=true is_zero=true eq_zero=true native=true', f'P - P with the same element held in representation {rep}'))
+    return cases
+
+def r1cs_adversarial_cases(build, obs=()):
+    if build != 'ark': return []
+    cases = []
+    one = le(1); m1 = le(Q - 1)
+    from .r1cs import KNOWN_ISQRT_KEY
+    only_known = bool(obs) and all(o.key == KNOWN_ISQRT_KEY for o in obs)
+    # the isqrt den = 0 case: hint (true, +-1)   (recorded as a known finding; replayed only for obligations carrying its key)
+    for y in ((one, m1) if (only_known or not obs) else ()):
+        cases.append((f'r1cs:isqrt,{le(0)},hint=1:{y}', ('re', r'^sat=false '), 'isqrt on den = 0 with the substituted hint (true, +-1) must not be satisfiable'))
+        cases.append((f'r1cs:decode,{le(Q - 1)},hint=1:{y}', ('re', r'^sat=false '), 'in-circuit decode of s = q - 1 with the substituted hint (true, +-1) must not be satisfiable'))
+    if only_known: return cases
+    # honest prover on invalid encodings (non-square denominator, negative s)
+    for b in byte_strings():
+        v = int.from_bytes(b, 'little')
+        if v >= Q: continue
+        if decode_expect(b).startswith('err'): cases.append((f'r1cs:decode,{b.hex()}', ('re', r'^sat=false '), f'in-circuit decode of the invalid encoding {v} (honest hints)'))
+    for s_ in (2, 4, 6, 10, 12):
+        if decode_expect(le_bytes(s_)).startswith('err'):
+            ws, y = replay.ref_sqrt_ratio(1, 1)
+            cases.append((f'r1cs:decode,{le(s_)}', ('re', r'^sat=false '), f'in-circuit decode of the invalid encoding {s_}'))
+    # off-curve / arbitrary witnessed coordinates
+    for x, y in ((2, 3), (0, 0), (1, 1), (5, 0)): cases.append((f'r1cs:alloc,{le(x)},{le(y)}', 'sat=false', f'witness allocation with the off-curve coordinates ({x}, {y})'))
+    B = ref_B()
+    cases.append((f'r1cs:alloc,{le(2 * B[0] % Q)},{le(2 * B[1] % Q)}', 'sat=false', 'witness allocation with the scaled (off-curve) coordinates (2x, 2y) of the generator'))
+    return cases
+def le_bytes(v): return v.to_bytes(32, 'little')
+
 BATTERIES = {
+    'C13': lambda b: r1cs_honest_cases(b),
+    'C14': r1cs_adversarial_cases,
     'C16': lambda b: bls_cases(b),
     'C10': lambda b: field_cases(b),
     'C11': lambda b: conversion_cases(b),
@@ -464,9 +520,9 @@ def reproduce(prop, obs):
     if not cands: return
     by_build = {}
     for o in cands:
-        b = 'ark' if o.name.startswith('ark:') else ('min' if o.name.startswith('min:') else (o.model or {}).get('build', 'ark'))
-        by_build.setdefault(b, []).append(o)
-    for build, os_ in by_build.items():
+        b = 'ark' if o.name.startswith(('ark:', 'r1cs:')) else ('min' if o.name.startswith('min:') else (o.model or {}).get('build', 'ark'))
+        by_build.setdefault((b, o.key), []).append(o)
+    for (build, _key), os_ in by_build.items():
         hit = None; err = None
         bat = BATTERIES.get(prop)
         if bat is None: err = 'no replay battery for this property'
